@@ -2,6 +2,7 @@ package fakesrv
 
 import (
 	"hash/fnv"
+	"strings"
 
 	"verif/internal/wire"
 )
@@ -103,6 +104,15 @@ func Derived(req wire.Msg, msize uint32) (uint8, []any) {
 		vals[0] = req.F[1].(uint64) & 0x3fff // valid = requested
 		return wire.Rgetattr, vals
 	case wire.Txattrwalk:
+		if name, _ := req.F[2].(string); strings.HasPrefix(name, "user.big") || name == "" {
+			// a value (or, for the empty name, a name list) far longer than one
+			// reply can carry: the client has to fetch it in pieces
+			sz := 3*uint64(msize) + 7
+			if sz > 1<<21 {
+				sz = 1 << 21
+			}
+			return wire.Rxattrwalk, []any{sz}
+		}
 		return wire.Rxattrwalk, []any{uint64(r.Intn(64))}
 	}
 	return req.Type + 1, g.Vals(req.Type + 1)
